@@ -8,6 +8,7 @@ package dtls
 // sequence numbers per epoch in emission order, (c) seq < 2^48.
 
 import (
+	"strings"
 	"bytes"
 	"context"
 	"errors"
@@ -357,6 +358,19 @@ func vfC09FaultedHandshake(t *testing.T, res *vfResult, idx int) {
 		cfg.MTU = 100
 	}
 	mask := vfRandMask(r, 10, 0.3, "x2sh")
+	if idx%5 == 4 && cfg.Suite.Auth != "psk" {
+		// a client that accepts both versions: its first ClientHello goes out from the version-negotiation loop, and
+		// is lost here so that the loop has to retransmit it
+		cfg.Suite = vfSuiteInfo{Name: "default", Auth: cfg.Suite.Auth}
+		if cfg.Suite.Auth == "tls13" {
+			cfg.Suite.Auth = "ecdsa"
+			cfg.CertKind = "ecdsa"
+		}
+		cfg.CVer, cfg.SVer = "dual", []string{"dual", "12", "13"}[(idx/5)%3]
+		k := 1 + (idx/15)%3
+		mask.C = strings.Repeat("x", k) + mask.C[k:]
+		res.Count("dualstack_client_first_hello_lost", 1)
+	}
 	n := vfNewNet()
 	mask.Install(n)
 	co, so := cfg.Options(nil, nil)
